@@ -20,7 +20,11 @@ from . import h5util as H
 ID = "C05"
 MOD = "harness.props.c05"
 LEAN = dict(modules=["MetadorModel.Props.C05"],
-            theorems=["MetadorModel.C05." + n for n in ['merge_identity', 'merge_defined', 'merge_continues_chain', 'merge_is_base', 'next_patch_follows_merged', 'merge_view', 'merge_single', 'merge_succeeds', 'merge_idempotent_on_view']],
+            theorems=["MetadorModel.C05." + n for n in ['merge_identity', 'merge_defined', 'merge_continues_chain', 'merge_is_base', 'next_patch_follows_merged', 'merge_view', 'merge_single', 'merge_succeeds', 'merge_idempotent_on_view',
+                                                               'merge_inv', 'merge_mentions', 'merge_followups_over',
+                                                               'merge_followups_same_view', 'merge_followups_fold',
+                                                               'merge_same_update_partial', 'merge_same_update']]
+            + ["MetadorModel.Follow." + n for n in ['invLast_transfer', 'follow_same_view', 'view_fold_over', 'invB_sound']],
             drivers=["drv_mrg"])
 
 
